@@ -7,7 +7,7 @@
     serve.  When the source changes shape the corresponding [Lemma] stops
     checking. *)
 From Coq Require Import List NArith Bool String.
-From Verif Require Import Sni.SchedSkel Gen.ServerSkel.
+From Verif Require Import Sni.SchedSkel Gen.ServerSkel Sni.RegistryBracket.
 Import ListNotations.
 Local Open Scope string_scope.
 
@@ -149,6 +149,37 @@ Lemma gen_registry_writers_ok :
   gen_registry_writers = ["Server.unmap"; "Server.upgrade"] /\
   gen_unmap_callers = [("Server.ServeBackName", "deferred")].
 Proof. vm_compute. split; reflexivity. Qed.
+
+(** ** The registration bracket of ServeBackName (Sni/RegistryBracket.v)
+
+    The only function that calls [upgrade] is [ServeBackName], and between
+    that call (with the error check of the failed upgrade) and the [defer]
+    that calls [unmap] there is NO statement: no way out of the function lies
+    between storing the client in the registry and installing what takes it
+    out again.  ([gen_register_bracket]: per calling function, the top-level
+    statements between the two, each with whether a return / panic / goto
+    occurs inside.) *)
+Lemma gen_register_unmap_adjacent :
+  gen_register_bracket = [("Server.ServeBackName", [])].
+Proof. vm_compute. reflexivity. Qed.
+
+(** The weaker form, which is what the bracket theorem needs: statements may
+    stand between the two as long as none of them can leave the function. *)
+Definition gen_register_unmap_no_exitb : bool :=
+  match gen_register_bracket with
+  | [] => false
+  | l => forallb (fun fb => forallb (fun p => negb (snd p)) (snd fb)) l
+  end.
+
+Lemma gen_register_unmap_no_exit : gen_register_unmap_no_exitb = true.
+Proof. vm_compute. reflexivity. Qed.
+
+Lemma gen_ServeBackName_bracket : forall post,
+  match gen_register_bracket with
+  | [(_, between)] => bracket_ok (bracket_of between post) = true
+  | _ => False
+  end.
+Proof. intros post. rewrite gen_register_unmap_adjacent. apply adjacent_bracket_ok. Qed.
 
 (** ** One key for every access of the registry
 
